@@ -1,4 +1,4 @@
-package worldb
+package worldc
 
 import (
 	"encoding/json"
@@ -10,14 +10,14 @@ import (
 	"pgregory.net/rapid"
 )
 
-func TestMain(m *testing.M) { verifh.Main(m, "B") }
+func TestMain(m *testing.M) { verifh.Main(m, "C") }
 
 func TestSim(t *testing.T) {
 	prop := verifh.Prop()
 	switch prop {
-	case "C02", "C03", "C04", "C06", "C13":
+	case "C18", "C19":
 	default:
-		t.Skip("VERIF_PROP not a World B property")
+		t.Skip("VERIF_PROP not a World C property")
 	}
 	logOn := os.Getenv("VERIF_EVENTLOG") != ""
 	var logw *os.File
@@ -29,24 +29,24 @@ func TestSim(t *testing.T) {
 		}
 		defer logw.Close()
 	}
-	verifh.Drive(t, "B", func(_ *testing.T, rt *rapid.T) {
-		p := GenPlan(rt, prop)
-		v, s := Run(p, logOn)
+	verifh.Drive(t, "C", func(tt *testing.T, rt *rapid.T) {
+		p := GenPlan(rt, prop) // drawn completely before the bubble exists
+		v, info := Run(tt, p, logOn)
 		if logOn {
-			logw.WriteString("RUN\n" + strings.Join(s.log, "\n") + "\n")
+			logw.WriteString("RUN\n" + strings.Join(info.log, "\n") + "\n")
 		}
-		verifh.RunDone(s.nontriv, p)
+		verifh.RunDone(info.nontriv, p)
 		if v != nil {
-			verifh.Report(rt, "B", p, v)
+			verifh.Report(rt, "C", p, v)
 		}
 	}, func(raw json.RawMessage) *verifh.Violation {
 		var p Plan
 		if err := json.Unmarshal(raw, &p); err != nil {
 			t.Fatalf("HARNESS-ERROR: bad plan: %v", err)
 		}
-		v, s := Run(&p, true)
+		v, info := Run(t, &p, true)
 		if logOn {
-			logw.WriteString("RUN\n" + strings.Join(s.log, "\n") + "\n")
+			logw.WriteString("RUN\n" + strings.Join(info.log, "\n") + "\n")
 		}
 		return v
 	})
